@@ -824,6 +824,23 @@ func C19(r *vf.Run) {
 					cells["nil-base-near-limit"]++
 				}
 				names := labelNames(calls)
+				if g.Intn(5) == 0 {
+					// a size-measuring run that builds its program the way the real one will: through clones
+					// (themselves without a target) that are appended back
+					realT := asm.NewEmitter(make([]byte, 16384), listing)
+					for _, c := range calls {
+						invoke(realT, c)
+					}
+					dryT := asm.NewEmitter(nil, listing)
+					t := &cloneTree{g: g, nilMode: true, cells: cells}
+					if pan := vf.Try(func() { t.feed(dryT, nil, calls, 0) }); pan != nil {
+						r.Fail("nil-target-clone-tree-panic", fmt.Sprintf("a buffer-less emitter fed through %s panicked: %v", t.describe(), pan), map[string]interface{}{"calls": histStrings(calls), "tree": t.log})
+					} else if a, b := observe(realT, names), observe(dryT, names); a.PC != b.PC || a.Flags != b.Flags || fmt.Sprint(a.Labels) != fmt.Sprint(b.Labels) {
+						r.Fail("nil-target-clone-tree-differs", fmt.Sprintf("a buffer-less emitter fed through %s: PC $%06x (with buffer $%06x), flags %02x (%02x), labels equal=%v", t.describe(), b.PC, a.PC, b.Flags, a.Flags, fmt.Sprint(a.Labels) == fmt.Sprint(b.Labels)), map[string]interface{}{"calls": histStrings(calls), "tree": t.log})
+					}
+					cells["nil:through-clone-tree"]++
+					r.Eval(1)
+				}
 				real := asm.NewEmitter(make([]byte, 16384), listing)
 				dry := asm.NewEmitter(nil, listing)
 				// every way of creating an emitter without / with a target buffer: NewEmitter, or Clone of a
